@@ -21,6 +21,7 @@ type Mutation struct {
 	Rule   string // rule expected to report
 	Expect string // substring expected in the reported key
 	All    bool   // replace all occurrences (else exactly one must exist)
+	More   [][2]string // further (old, new) edits in the same file, each must occur exactly once
 }
 
 func copyTree(src, dst string) error {
@@ -87,6 +88,13 @@ func runSelfTest(c *Ctx, info *propInfo) *SelfTestResult {
 			copyFile(filepath.Join(c.Repo, "go.mod"), filepath.Join(tmp, "go.mod"))
 			copyFile(filepath.Join(c.Repo, "go.sum"), filepath.Join(tmp, "go.sum"))
 			mutated := strings.Replace(string(data), m.Old, m.New, -1)
+			for _, ed := range m.More {
+				if strings.Count(mutated, ed[0]) != 1 {
+					o.status, o.detail = "stale", "secondary fragment not unique"
+					return
+				}
+				mutated = strings.Replace(mutated, ed[0], ed[1], 1)
+			}
 			if err := os.WriteFile(filepath.Join(tmp, m.File), []byte(mutated), 0o644); err != nil {
 				o.status, o.detail = "error", err.Error()
 				return
